@@ -109,7 +109,8 @@ func (w *c03) step(t []string) string {
 			return "[-2]"
 		}
 		out := []int{}
-		if body := str[1 : len(str)-1]; body != "" {
+		if body := str[1 : len(str)-1]; body != "" || xs.Len() == 1 {
+			// (a set whose only member prints as "" renders as "{}": one empty token)
 			for _, tok := range strings.Split(body, " ") {
 				out = append(out, memberIndex(tok))
 			}
@@ -170,7 +171,7 @@ func (w *c03) step(t []string) string {
 }
 
 // members that look like list / set syntax themselves
-var memberNames = []string{"[a]", "b]", "[c", "{d}", "e", "]", "[", "[[f]]"}
+var memberNames = []string{"[a]", "b]", "[c", "{d}", "", "]", "[", "[[f]]"} // member 4 prints as the EMPTY string
 
 func memberName(v int) string {
 	if v >= 0 && v < len(memberNames) {
